@@ -6,7 +6,12 @@ cd /verif
 run() { # commit, pid, replay
   d=$(mktemp -d /tmp/iopt-rev-XXXX); rmdir $d
   git -C /repo worktree add -q --detach $d HEAD >/dev/null 2>&1
-  (cd $d && git revert -n $1 >/dev/null 2>&1) || echo "revert failed $1"
+  if [ -f /verif/tools/unfix/$1.diff ]; then
+    # later fixes rewrote the same lines: the defect is put back by a patch against the current tree
+    (cd $d && git apply /verif/tools/unfix/$1.diff) || echo "unfix patch failed $1"
+  else
+    (cd $d && git revert -n $1 >/dev/null 2>&1) || echo "revert failed $1"
+  fi
   VERIF_REPO=$d ./check $2 --replay $3 >/tmp/rr.out 2>&1; rc=$?
   echo "$1 $2 $(basename $3): exit $rc $(grep -A1 VIOLATION /tmp/rr.out | tail -1 | cut -c1-150)"
   git -C /repo worktree remove --force $d
@@ -22,10 +27,10 @@ run b08346d C08 replays/regress/C08-D7-tail-adjacency.json
 run 661611b C17 replays/regress/C17-D8-int-scratch.json
 run 661611b C09 replays/regress/C09-D8-int-list.json
 run 8d9d7b6 C13 replays/regress/C13-D9-painter-arange.json
-run 023290d C04 replays/regress/C04-D10-refined-optimum-lost.json
-run babdf30 C16 replays/regress/C16-D11-failed-trial-loses-interval.json
-run babdf30 C02 replays/regress/C02-D11-fault-then-continue.json
-run da3511f C16 replays/regress/C16-D12-refinement-failure-escapes.json
+run D10 C04 replays/regress/C04-D10-refined-optimum-lost.json
+run D11 C16 replays/regress/C16-D11-failed-trial-loses-interval.json
+run D11 C02 replays/regress/C02-D11-fault-then-continue.json
+run D12 C16 replays/regress/C16-D12-refinement-failure-escapes.json
 run 71b4939 C03 replays/regress/C03-D13-nonfinite-value-hangs.json
 run 674b2db C19 replays/regress/C19-D14-traversal-cursor.json
 run bb9a76d C17 replays/regress/C17-D15-0d-argument-modified.json
